@@ -44,6 +44,7 @@ type ConcConfig struct {
 	Yield      int    `json:"hook_yield_permille"`
 	Delays     string `json:"hook_delays"`
 	Race       bool   `json:"race_build"`
+	Bursts     int    `json:"bursts"` // synchronised all-worker bursts on one bug followed by a quiescent excerpt check
 }
 
 // ConcEvent is one client-boundary record.
@@ -324,6 +325,55 @@ func concChild(args []string) int {
 	}
 	close(start)
 	wg.Wait()
+
+	// bursts: all workers edit and commit the same bug at the same instant, then everybody stops: at that
+	// quiescent point the excerpt the cache serves must describe the bug's current state (the notifications of
+	// the burst race with each other; the last one stored must not be an older one)
+	if len(shared) > 0 && cfg.CacheSize >= 100 {
+		for round := 0; round < cfg.Bursts; round++ {
+			id := shared[round%len(shared)]
+			var bw sync.WaitGroup
+			gate := make(chan struct{})
+			for w := 0; w < cfg.Workers; w++ {
+				bw.Add(1)
+				go func(w int) {
+					defer bw.Done()
+					<-gate
+					m := newMarker(w)
+					ev := ConcEvent{W: w, Op: "comment", Bug: id.String(), Marker: m, Call: now()}
+					b, err := c.Bugs().Resolve(id)
+					if err == nil {
+						_, _, err = b.AddComment("comment " + m)
+					}
+					ev.Ret = now()
+					ev.Ok = err == nil
+					if err != nil {
+						ev.Err = errClass(err)
+						record(ev)
+						return
+					}
+					cerr := b.CommitAsNeeded()
+					ev.Acked = cerr == nil
+					record(ev)
+				}(w)
+			}
+			close(gate)
+			bw.Wait()
+			b, err := c.Bugs().Resolve(id)
+			ex, err2 := c.Bugs().ResolveExcerpt(id)
+			if err != nil || err2 != nil {
+				record(ConcEvent{W: -1, Op: "quiescent-check", Bug: id.String(), Err: fmt.Sprintf("resolve: %v %v", err, err2)})
+				continue
+			}
+			snap := b.Snapshot()
+			if ex.LenComments != len(snap.Comments) || ex.Status != snap.Status || ex.Title != snap.Title || ex.EditLamportTime != b.EditLamportTime() {
+				record(ConcEvent{W: -1, Op: "quiescent-check", Bug: id.String(),
+					Err: fmt.Sprintf("after burst %d the excerpt says %d comments / edit time %d, the bug has %d comments / edit time %d", round, ex.LenComments, ex.EditLamportTime, len(snap.Comments), b.EditLamportTime())})
+			} else {
+				record(ConcEvent{W: -1, Op: "quiescent-check", Bug: id.String(), Ok: true})
+			}
+		}
+	}
 	// commit whatever was left staged, then a final read through the cache
 	for _, id := range c.Bugs().AllIds() {
 		b, err := c.Bugs().Resolve(id)
@@ -331,8 +381,11 @@ func concChild(args []string) int {
 			record(ConcEvent{W: -1, Op: "final-resolve", Bug: id.String(), Err: errClass(err)})
 			continue
 		}
+		if !b.NeedCommit() {
+			continue // nothing staged: do not touch the bug, a cache notification would refresh (and so hide) a stale excerpt
+		}
 		ev := ConcEvent{W: -1, Op: "final-commit", Bug: id.String(), Call: now()}
-		err = b.CommitAsNeeded()
+		err = b.Commit()
 		ev.Ret = now()
 		ev.Ok = err == nil
 		if err != nil {
@@ -354,6 +407,7 @@ type concVerdict struct {
 
 type concStats struct {
 	acked, stored, events int
+	quiescent             int
 	fingerprint           string
 	porcupine             string
 	linearizableBugs      int
@@ -460,8 +514,41 @@ func checkConc(cfg ConcConfig, out ConcOutput) ([]concVerdict, concStats) {
 		}
 	}
 	for _, e := range out.Events {
+		if e.Op == "quiescent-check" {
+			if e.Ok {
+				st.quiescent++
+			} else {
+				fail("excerpt-stale-at-quiescent-point", e.Err)
+			}
+			continue
+		}
 		if e.Op == "final-resolve" || (e.Op == "final-commit" && !e.Ok) || e.Op == "close" {
 			fail("final-"+e.Op+"-fails:"+e.Err, fmt.Sprintf("after the workers were done: %s on %s: %s", e.Op, short(e.Bug), e.Err))
+		}
+	}
+
+	// the persisted clocks must dominate everything stored (concurrent increments write the clock file from
+	// several goroutines)
+	var maxEdit, maxCreate uint64
+	for _, id := range ids {
+		if h, ok, err := gitraw.ReadRef(rep.Repo, "refs/bugs/"+id.String()); ok && err == nil {
+			if m := h.MaxEdit(); m > maxEdit {
+				maxEdit = m
+			}
+			if m := h.MaxCreate(); m > maxCreate {
+				maxCreate = m
+			}
+		}
+	}
+	for name, want := range map[string]uint64{"bugs-edit": maxEdit, "bugs-create": maxCreate} {
+		data, err := os.ReadFile(filepath.Join(cfg.Dir, "repo", ".git", "git-bug", "clocks", name))
+		if err != nil {
+			continue
+		}
+		var v uint64
+		fmt.Sscanf(strings.TrimSpace(string(data)), "%d", &v)
+		if v < want {
+			fail("clock-file-below-stored-time:"+name, fmt.Sprintf("after the run the clock file %s holds %d but a stored commit carries %d", name, v, want))
 		}
 	}
 
@@ -777,8 +864,10 @@ func c18Configs(r *mon.Run) []ConcConfig {
 		if i%6 == 5 {
 			cfg.CacheSize = 1 + rng.Intn(3)
 		}
+		cfg.Bursts = r.Pick(12, 60)
 		if cfg.Race {
 			cfg.Calls = 20 + rng.Intn(30)
+			cfg.Bursts = 10
 		}
 		cfg.Name = fmt.Sprintf("w%d-p%d-c%d-s%d-%s-size%d-unl%v-y%d-race%v", cfg.Workers, cfg.GoMaxProcs, cfg.Calls, cfg.Shared, cfg.Mix, cfg.CacheSize, cfg.Unloaded, cfg.Yield, cfg.Race)
 		out = append(out, cfg)
@@ -895,6 +984,7 @@ func runC18(tier, replay string) int {
 		r.Count("acknowledged_operations", o.stats.acked)
 		r.Count("stored_markers", o.stats.stored)
 		r.Count("client_events", o.stats.events)
+		r.Count("quiescent_excerpt_checks_after_bursts", o.stats.quiescent)
 		r.Count("porcupine/"+o.stats.porcupine, 1)
 		r.Count("bug_histories_checked_linearizable", o.stats.linearizableBugs)
 		for e, n := range o.stats.errors {
